@@ -561,6 +561,14 @@ def setField : Value → String → Value → Option Value
   | .ctimespec s _, "tv_nsec", .int _ n => some (.ctimespec s n)
   | _, _, _ => none
 
+-- [shm] begin: fields of a tuple struct
+/-- the name under which the `i`-th field of a tuple struct `struct S(A, B)` is kept (`s.0`, `s.1`; the translator
+    lists them as `0`, `1`, … in the `structs` table) -/
+def tupleFieldName : Nat → String
+  | 0 => "0" | 1 => "1" | 2 => "2" | 3 => "3"
+  | n => toString n
+-- [shm] end
+
 def listGet : List Value → Nat → Option Value
   | [], _ => none
   | v :: _, 0 => some v
@@ -1401,6 +1409,9 @@ def eval : Nat → Ctx → Frame → Expr → St → Res
       (eval n ctx fr e st).bind fun v st =>
         match v with
         | .tuple vs => orStuck "tuple index out of range" (listGet vs i) fun w => .val w st
+        -- [shm] begin: `s.0` on a value of a tuple struct (a `struct` value whose fields are named `0`, `1`, …)
+        | .struct _ fs => orStuck "tuple struct: no such field" (envGet fs (tupleFieldName i)) fun w => .val w st
+        -- [shm] end
         | _ => .stuck "tuple index on a non-tuple"
     -- [threads] `f(|| g(x, y))` / `f(move || g(x, y))`: a call whose only argument is a parameterless closure that
     -- does nothing but call a path on LOCAL VARIABLES (`spawn(move || shm_writer::run(ctx, max_drift_ppb))`).  Such a
